@@ -133,6 +133,8 @@ EDITS = [
     ("field-deprecation-reason", '@deprecated(reason: "old")', '@deprecated(reason: "older")', "role"),
     ("interface-field-retyped", "interface Node {\n  id: ID!\n}", "interface Node {\n  id: ID\n}", "id"),
     ("retype-argument-to-list", "bump(by: Int = 1)", "bump(by: [Int] = [1])", "by"),
+    ("retype-argument-int-to-float", "bump(by: Int = 1)", "bump(by: Float = 1)", "by"),
+    ("retype-argument-string-to-id", "search(text: String!, limit: Int = 5", "search(text: ID!, limit: Int = 5", "text"),
     ("retype-field-object-to-interface", "  me: User\n", "  me: Named\n", "me"),
 ]
 
